@@ -134,6 +134,7 @@ def run_case(ctx, name, params):
         ctx.nontrivial(("lh", cls.__name__))
         ctx.count("cases")
         return
+    revisit = []
     for dim, p in vs:
         if len(p.costs) != 1:
             continue
@@ -344,6 +345,31 @@ def run_case(ctx, name, params):
                                   "concurrent use" % (fname, v), {"function": fname, "dimension": n})
         ctx.sample({"function": fname, "dimension": n, "criteria": "maximize" if maximize else "minimize",
                     "documented_optimum": opt, "best_seen": None if best is None else best[0]}, fname, 1)
+        if fname != "XinSheYang3" and not state["bad"]:
+            q_ = [lb + r.random() * (ub - lb) for lb, ub in box]
+            v_ = f(q_)
+            if v_ is not None:
+                revisit.append((p, n, q_, v_))
+    # siblings, continued: after everything above, one more problem object of the class is created in the smallest and one in the
+    # largest dimension used, and every earlier object answers one of its points again -- with the value it gave before
+    if revisit and len(revisit) >= 2:
+        dims_ = sorted(n_ for _, n_, _, _ in revisit)
+        for d_ in (dims_[0], dims_[-1]):
+            instantiate(cls, d_)
+            for p_, n_, q_, v_ in revisit:
+                ctx.count("sibling_revisits")
+                try:
+                    again = float(p_.evaluate(Individual([float(c_) for c_ in q_]))[0])
+                except Exception as e:
+                    ctx.violation("C15/%s/totality/exception/%s" % (cls.__name__, type(e).__name__), "%s(dimension %d).evaluate raised %r after "
+                                  "another problem object of the class (dimension %d) was created" % (cls.__name__, n_, e, d_),
+                                  {"function": cls.__name__, "dimension": n_, "x": q_})
+                    return
+                if again != v_:
+                    ctx.violation("C15/%s/sibling_changed_value" % cls.__name__, "%s(dimension %d) answers %r for a point it answered %r before "
+                                  "another problem object of the class (dimension %d) was created" % (cls.__name__, n_, again, v_, d_),
+                                  {"function": cls.__name__, "dimension": n_, "x": q_})
+                    return
 
 
 def requirements(ctx):
